@@ -79,7 +79,7 @@ ADD = {
  'C16': ' Patterns include a plain anchored prefix with mixed-case names; aggregation-aware routing is also checked across a reload of the rules file with the real RuleManager.',
  'C17': ' Plus max/bucketmax under interleaved drain/store/re-store sequences, an influx of new metric names in the middle of a pass, and completeness of repeated draining after a store/drain race.',
  'C18': ' Thirty names violating a documented tag rule (several with a well-formed last tag) must be refused by the parser.',
- 'C19': ' Plus the writer\'s reload functions after the live config file was replaced (older or newer mtime) in a private CONF_DIR, reload order independence, and real pattern matching (alternations mixing anchored and unanchored branches).',
+ 'C19': ' Plus the writer\'s reload functions after the live config file was replaced (older or newer mtime) in a private CONF_DIR, reload order independence, real pattern matching (alternations mixing anchored and unanchored branches), and independence of a section\'s match from an earlier section of the same name built in the same process.',
  'C20': ' The writer call sites (one token, acquired first, per create/write) are decided with scripted stub buckets and with real TokenBucket objects in arbitrary fill states; shutdownModifyUpdateSpeed reaches both buckets.',
 }
 for _k, _v in ADD.items():
